@@ -20,7 +20,14 @@ obligation as broken):
   * the list `result` of awaitables and what `update` returned are represented by a status (SOk / SFailed) only."""
 import ast
 
-from gen_kernels import KernelError, find_class, find_func
+import pynorm
+from gen_kernels import KernelError, find_class
+from gen_kernels import find_func as find_func_raw
+
+
+def find_func(node, name):
+    """the method, normalised (harness/pynorm.py: python-level identities that reduce the number of source shapes)"""
+    return pynorm.normalize(find_func_raw(node, name))
 
 
 def cq(s):
@@ -71,6 +78,8 @@ class WorldTr:
         self.tails = []
         self.depth = 0                # nesting in if / for (a `return` is accepted only at depth 0, as the last statement)
         self.ret_ty = None
+        self.local_defs = {}          # local helper functions (closures) defined in the method: inlined where called
+        self.inlining = []
 
     # ---- utilities ------------------------------------------------------------------------------------------------
     def fresh(self, base="v"):
@@ -224,6 +233,27 @@ class WorldTr:
             self.err("`is None` test on a %s: the representation does not tell None from an empty list" % (ty,), e)
         self.err("comparison %s" % ast.unparse(e), e)
 
+    def mterm(self, binds, term):
+        return "(" + " ".join("do %s <- %s ;;" % ("_" if v.startswith("u") else v, t) for v, t in binds) \
+            + (" " if binds else "") + "wret %s)" % term
+
+    def ex_IfExp(self, e, env, binds):
+        """a if c else b: the test first, then ONLY the chosen arm (an arm with a step becomes an `if` at the monad level)"""
+        c = self.cond(e.test, env, binds)
+        b1, b2 = [], []
+        t1, ty1 = self.ex(e.body, self.narrow(e.test, env, True), b1)
+        t2, ty2 = self.ex(e.orelse, self.narrow(e.test, env, False), b2)
+        ty = unify(ty1, ty2)
+        if ty is None or ty in ("liveset", "self"):
+            self.err("conditional expression: a %s or a %s" % (ty1, ty2), e)
+        if ty == "nil":
+            return ("[]", "nil")
+        t1, t2 = self.coerce(t1, ty1, ty, e), self.coerce(t2, ty2, ty, e)
+        if not b1 and not b2:
+            return ("(if %s then %s else %s)" % (c, t1, t2), ty)
+        return (self.bind(binds, "(if %s then %s else %s)" % (c, self.mterm(b1, t1), self.mterm(b2, t2)),
+                          "u" if ty == "unit" else "v"), ty)
+
     def ex_ListComp(self, e, env, binds):
         """[v for v in <awaitables> if v is not None]"""
         g = e.generators
@@ -333,7 +363,66 @@ class WorldTr:
             self.err("statement form %s not translatable: %s" % (type(s).__name__, ast.unparse(s).split("\n")[0]), s)
         return m(s, rest, env, ind)
 
+    def st_FunctionDef(self, s, rest, env, ind):
+        """a local helper defined inside the method (a closure over the method's locals): inlined where it is called as
+        a statement"""
+        a = s.args
+        if s.decorator_list or a.defaults or a.kw_defaults or a.vararg or a.kwarg or a.kwonlyargs or a.posonlyargs:
+            self.err("local function %s: only plain positional parameters are supported" % s.name, s)
+        for n in ast.walk(s):
+            if isinstance(n, (ast.Return, ast.Nonlocal, ast.Global, ast.Yield, ast.YieldFrom, ast.Await)) \
+                    or (isinstance(n, (ast.FunctionDef, ast.AsyncFunctionDef, ast.Lambda)) and n is not s):
+                self.err("local function %s contains %s" % (s.name, type(n).__name__), s)
+        if s.name in env:
+            self.err("local function %s shadows a local" % s.name, s)
+        if self.depth:
+            self.err("local function %s is defined inside a branch or a loop" % s.name, s)
+        self.local_defs[s.name] = s
+        return [self.src(s, ind)] + self.go(rest, env, ind)
+
+    def is_local_call(self, v):
+        return isinstance(v, ast.Call) and isinstance(v.func, ast.Name) and v.func.id in self.local_defs
+
+    def inline_local(self, call, rest, env, ind, node):
+        fn = self.local_defs[call.func.id]
+        if fn.name in self.inlining:
+            self.err("recursive local function %s" % fn.name, node)
+        params = [a.arg for a in fn.args.args]
+        if len(call.args) != len(params) or call.keywords or any(isinstance(a, ast.Starred) for a in call.args):
+            self.err("call of local function %s" % fn.name, node)
+        binds = []
+        env2 = dict(env)                    # a closure reads the enclosing locals as they are at the time of the call
+        for p_, a_ in zip(params, call.args):
+            t, ty = self.ex(a_, env, binds)                 # the arguments first, left to right, in the caller
+            if ty in ("liveset", "self", "unit"):
+                self.err("a %s is passed to local function %s" % (ty, fn.name), node)
+            env2[p_] = (t, ty)
+        # an assignment inside the closure creates a local of the closure; one that would shadow an enclosing name is
+        # refused (mutating an enclosing list through .extend / .append is fine: it is the same object)
+        for n in ast.walk(fn):
+            if isinstance(n, ast.Name) and isinstance(n.ctx, ast.Store) and n.id in env and n.id not in params:
+                self.err("local function %s assigns the enclosing name %s" % (fn.name, n.id), node)
+        own = set(params) | set(n.id for n in ast.walk(fn) if isinstance(n, ast.Name) and isinstance(n.ctx, ast.Store))
+        out = [self.src(node, ind)] + self.emit_binds(binds, ind)
+        out.append("%s(* ---- inlined: local def %s(%s) *)" % (ind, fn.name, ", ".join(params)))
+        marker = ast.Pass()
+        marker._end_inline = (fn.name, env, own)
+        self.inlining.append(fn.name)
+        try:
+            return out + self.go(list(fn.body) + [marker] + rest, env2, ind)
+        finally:
+            self.inlining.pop()
+
     def st_Pass(self, s, rest, env, ind):
+        if hasattr(s, "_end_inline"):
+            name, saved, own = s._end_inline
+            # back in the caller: the closure's own names are gone, the caller's are as before - except the enclosing
+            # lists the closure mutated, which keep what the closure did to them
+            env2 = {k: v for k, v in env.items() if k not in own}
+            for k, v in saved.items():
+                if k in own:
+                    env2[k] = v
+            return ["%s(* ---- end of %s *)" % (ind, name)] + self.go(rest, env2, ind)
         return self.go(rest, env, ind)
 
     def aws_mutation(self, target, meth, arg, env, node):
@@ -365,6 +454,8 @@ class WorldTr:
             term = self.aws_mutation(v.func.value.id, v.func.attr, v.args[0], env, s)
             env, lines = self.rebind(v.func.value.id, term, "aws", env, ind)
             return [self.src(s, ind)] + lines + self.go(rest, env, ind)
+        if self.is_local_call(v):
+            return self.inline_local(v, rest, env, ind, s)
         binds = []
         t, ty = self.ex(v, env, binds)
         if not binds:
@@ -384,22 +475,39 @@ class WorldTr:
         tgt = s.targets[0]
         out = [self.src(s, ind)]
         binds = []
+        if isinstance(tgt, ast.Tuple):
+            # a, b = p, q: the whole right-hand side is evaluated first, then the targets are assigned left to right
+            if not (isinstance(s.value, ast.Tuple) and len(s.value.elts) == len(tgt.elts)) \
+                    or any(isinstance(t1, ast.Starred) for t1 in list(tgt.elts) + list(s.value.elts)):
+                self.err("tuple assignment %s" % ast.unparse(s), s)
+            vals = [self.ex(v, env, binds) for v in s.value.elts]
+            out += self.emit_binds(binds, ind)
+            for t1, (term, ty) in zip(tgt.elts, vals):
+                env, lines = self.assign_to(t1, term, ty, False, env, ind, s)
+                out += lines
+            return out + self.go(rest, env, ind)
         term, ty = self.ex(s.value, env, binds)
+        out += self.emit_binds(binds, ind)
+        env, lines = self.assign_to(tgt, term, ty, bool(binds), env, ind, s)
+        return out + lines + self.go(rest, env, ind)
+
+    def assign_to(self, tgt, term, ty, stepped, env, ind, s):
+        """one assignment target -> (env, lines)"""
         name = self.self_attr(tgt)
         if name is not None:
             if name not in UNOBSERVED:
                 self.err("assignment to self.%s, which is not in the list of unobserved attributes" % name, s)
-            if binds:
+            if stepped:
                 self.err("assignment to the unobserved self.%s has a right-hand side with a step" % name, s)
             self.note("self.%s is not observed by the model: the assignment generates no step" % name)
-            return out + ["%s(* not observed by the model: no step *)" % ind] + self.go(rest, env, ind)
+            return env, ["%s(* self.%s is not observed by the model: no step *)" % (ind, name)]
         if not isinstance(tgt, ast.Name):
             self.err("assignment target %s" % ast.unparse(tgt), s)
         if ty in ("liveset", "self", "unit"):
             self.err("a %s is bound to a local" % (ty,), s)
-        out += self.emit_binds(binds, ind)
-        env, lines = self.rebind(tgt.id, term, ty, env, ind)
-        return out + lines + self.go(rest, env, ind)
+        if tgt.id in self.local_defs:
+            self.err("the local function %s is rebound" % tgt.id, s)
+        return self.rebind(tgt.id, term, ty, env, ind)
 
     def st_Return(self, s, rest, env, ind):
         if rest or self.depth:
@@ -417,7 +525,7 @@ class WorldTr:
         self.ret_ty = ty
         return out + self.emit_binds(binds, ind) + ["%swret %s" % (ind, t)]
 
-    def assigned_names(self, stmts):
+    def assigned_names(self, stmts, seen=()):
         res = []
         for st in stmts:
             for n in ast.walk(st):
@@ -429,6 +537,14 @@ class WorldTr:
                     name = n.func.value.id
                 if name is not None and name not in res:
                     res.append(name)
+                if self.is_local_call(n) and n.func.id not in seen:
+                    # the enclosing lists a local function mutates are mutated by the call
+                    fn = self.local_defs[n.func.id]
+                    own = set(a.arg for a in fn.args.args) | set(m.id for m in ast.walk(fn)
+                                                                 if isinstance(m, ast.Name) and isinstance(m.ctx, ast.Store))
+                    for name in self.assigned_names(fn.body, seen + (n.func.id,)):
+                        if name not in own and name not in res:
+                            res.append(name)
         return res
 
     def branch(self, stmts, env, ind, carried, want):
